@@ -1,8 +1,16 @@
 // C06 driver: hostile datagrams into a real MessageReceiver (reliable Reader with two matched remote
-// writers) and a real reliable Writer (one matched remote reader).  Every case runs on its own thread
-// under a watchdog; panics are caught; bytes allocated while handling each datagram are measured by
-// the counting allocator installed by the harness binary.
+// writers) and a real reliable Writer (history of three samples, one matched remote reader).
+//
+// Process structure: the parent process generates the cases and writes the case files; the cases
+// are EXECUTED in a child process (same binary, env C06_CHILD=1) whose address space is capped with
+// `ulimit -v`, so that a runaway allocation fails fast.  The child reports one line per case on
+// stdout.  If the child dies (abort on allocation failure, stack overflow, ...) or stops making
+// progress (watchdog), the parent records OCrash / OHang for the case that was running and
+// restarts the child behind it.  Panics are caught in the child (catch_unwind) and reported as
+// OCrash: nothing catches them in the real receive thread.
 use std::{
+  io::{BufRead, BufReader, Write as _},
+  process::{Command, Stdio},
   sync::mpsc,
   thread,
   time::{Duration as StdDuration, Instant},
@@ -12,15 +20,23 @@ use bytes::Bytes;
 use mio_extras::channel as mio_channel;
 
 use crate::{
-  dds::qos::{policy::*, QosPolicies, QosPolicyBuilder},
-  messages::submessages::submessages::AckSubmessage,
+  dds::{
+    ddsdata::DDSData,
+    qos::{policy::*, QosPolicies, QosPolicyBuilder},
+    with_key::datawriter::WriteOptions,
+  },
+  messages::submessages::{
+    elements::serialized_payload::SerializedPayload,
+    submessages::{AckSubmessage, InterpreterSubmessage, ReaderSubmessage},
+  },
   rtps::{
     message::Message, message_receiver::MessageReceiver, rtps_reader_proxy::RtpsReaderProxy,
-    rtps_writer_proxy::RtpsWriterProxy,
+    rtps_writer_proxy::RtpsWriterProxy, writer::WriterCommand, SubmessageBody,
   },
   structure::{
     duration::Duration,
     guid::{EntityId, EntityKind, GuidPrefix, GUID},
+    sequence_number::SequenceNumber,
   },
 };
 use super::{
@@ -28,23 +44,28 @@ use super::{
   util::{self, Args, CaseOut, Rng},
 };
 
-// ---------- allocation probe (set by the harness binary) ----------
+// ---------- allocation probes (set by the harness binary) ----------
 static mut ALLOC_PROBE: Option<fn() -> u64> = None;
+static mut LIVE_PROBE: Option<fn() -> i64> = None;
 pub fn set_alloc_probe(f: fn() -> u64) {
   unsafe { ALLOC_PROBE = Some(f) }
+}
+pub fn set_live_probe(f: fn() -> i64) {
+  unsafe { LIVE_PROBE = Some(f) }
 }
 fn allocated() -> u64 {
   unsafe { ALLOC_PROBE.map(|f| f()).unwrap_or(0) }
 }
+fn live() -> i64 {
+  unsafe { LIVE_PROBE.map(|f| f()).unwrap_or(0) }
+}
 
 // ---------- wire encoder, independent of the implementation's serialiser ----------
-pub const P_OWN: [u8; 12] = [9; 12];
-pub const P_W1: [u8; 12] = [1; 12];
-pub const P_W2: [u8; 12] = [2; 12];
+pub const OWN: u8 = 9;
 pub const E_READER: [u8; 4] = [0, 0, 1, 0x07];
-pub const E_RWRITER: [u8; 4] = [0, 0, 2, 0x02]; // remote writer entity (on W1 and W2)
+pub const E_RWRITER: [u8; 4] = [0, 0, 2, 0x02]; // remote writer entity (on every source)
 pub const E_LWRITER: [u8; 4] = [0, 0, 3, 0x02]; // local writer
-pub const E_RREADER: [u8; 4] = [0, 0, 4, 0x07]; // remote reader (on W1) matched to local writer
+pub const E_RREADER: [u8; 4] = [0, 0, 4, 0x07]; // remote reader (on source 1) matched to the local writer
 
 #[derive(Clone, Debug)]
 pub enum Sub {
@@ -56,12 +77,26 @@ pub enum Sub {
   NackFrag { sn: i64, base: u32, numbits: u32, words: Vec<u32>, count: i32 },
   HeartbeatFrag { sn: i64, last_frag: u32, count: i32 },
   InfoTs { sec: u32, frac: u32 },
-  Raw { id: u8, flags: u8, body: Vec<u8>, len_field: Option<u16> },
+  InfoDst { who: u8 },
+  InfoSrc { who: u8 },
+  Raw { id: u8, flags: u8, body: Vec<u8>, len_field: Option<u16> }, // last submessage only
+  Blob { bytes: Vec<u8> },                                           // a whole datagram
+}
+
+#[derive(Clone, Debug)]
+pub struct Dgram {
+  pub src: u8,
+  pub subs: Vec<Sub>,
 }
 
 fn sn_bytes(sn: i64, out: &mut Vec<u8>) {
   out.extend_from_slice(&((sn >> 32) as i32).to_le_bytes());
   out.extend_from_slice(&(sn as u32).to_le_bytes());
+}
+fn pad4(v: &mut Vec<u8>) {
+  while v.len() % 4 != 0 {
+    v.push(0);
+  }
 }
 
 fn sub_bytes(s: &Sub, out: &mut Vec<u8>) {
@@ -144,13 +179,23 @@ fn sub_bytes(s: &Sub, out: &mut Vec<u8>) {
       body.extend_from_slice(&frac.to_le_bytes());
       (0x09, 1, None)
     }
+    Sub::InfoDst { who } => {
+      body.extend_from_slice(&[*who; 12]);
+      (0x0e, 1, None)
+    }
+    Sub::InfoSrc { who } => {
+      body.extend_from_slice(&[0, 0, 0, 0, 2, 4, 1, 18]);
+      body.extend_from_slice(&[*who; 12]);
+      (0x0c, 1, None)
+    }
     Sub::Raw { id, flags, body: b, len_field } => {
       body.extend_from_slice(b);
       (*id, *flags, *len_field)
     }
+    Sub::Blob { .. } => unreachable!(),
   };
-  while body.len() % 4 != 0 && len_override.is_none() {
-    body.push(0);
+  if len_override.is_none() {
+    pad4(&mut body);
   }
   out.push(id);
   out.push(flags);
@@ -159,20 +204,25 @@ fn sub_bytes(s: &Sub, out: &mut Vec<u8>) {
   out.extend_from_slice(&body);
 }
 
-pub fn datagram(src: &[u8; 12], subs: &[Sub]) -> Vec<u8> {
+pub fn datagram(d: &Dgram) -> Vec<u8> {
+  if let [Sub::Blob { bytes }] = d.subs.as_slice() {
+    return bytes.clone();
+  }
   let mut out = Vec::new();
   out.extend_from_slice(b"RTPS");
   out.extend_from_slice(&[2, 4, 1, 18]);
-  out.extend_from_slice(src);
-  for s in subs {
+  out.extend_from_slice(&[d.src; 12]);
+  for s in &d.subs {
     sub_bytes(s, &mut out);
   }
   out
 }
 
+/// 4-byte CDR_LE representation header + n bytes, padded to a multiple of 4
 fn cdr_payload(n: usize) -> Vec<u8> {
   let mut v = vec![0, 1, 0, 0];
   v.extend((0..n).map(|i| (i * 7 + 1) as u8));
+  pad4(&mut v);
   v
 }
 
@@ -183,11 +233,7 @@ struct Sut {
   _live_rx: mio_channel::Receiver<GuidPrefix>,
   wk: mk::WriterKit,
   topic_cache: std::sync::Arc<std::sync::Mutex<crate::structure::dds_cache::TopicCache>>,
-  _rk_rest: (
-    crate::dds::statusevents::StatusChannelReceiver<crate::dds::statusevents::DataReaderStatus>,
-    mio_channel::Receiver<()>,
-    std::sync::Arc<std::sync::RwLock<crate::structure::dds_cache::DDSCache>>,
-  ),
+  _rk_rest: Box<dyn std::any::Any>,
 }
 
 fn reliable_qos() -> QosPolicies {
@@ -197,38 +243,63 @@ fn reliable_qos() -> QosPolicies {
     .build()
 }
 
+fn writer_guid(src: u8) -> GUID {
+  GUID::new(
+    GuidPrefix::new(&[src; 12]),
+    EntityId::new([0, 0, 2], EntityKind::WRITER_WITH_KEY_USER_DEFINED),
+  )
+}
+fn rreader_guid(src: u8) -> GUID {
+  GUID::new(
+    GuidPrefix::new(&[src; 12]),
+    EntityId::new([0, 0, 4], EntityKind::READER_WITH_KEY_USER_DEFINED),
+  )
+}
+fn reader_eid() -> EntityId {
+  EntityId::new([0, 0, 1], EntityKind::READER_WITH_KEY_USER_DEFINED)
+}
+
 fn build_sut() -> Sut {
-  let own = GuidPrefix::new(&P_OWN);
-  let (ack_tx, ack_rx) = mio_channel::sync_channel::<(GuidPrefix, AckSubmessage)>(100);
+  let own = GuidPrefix::new(&[OWN; 12]);
+  let (ack_tx, ack_rx) = mio_channel::sync_channel::<(GuidPrefix, AckSubmessage)>(4096);
   let (live_tx, live_rx) = mio_channel::sync_channel::<GuidPrefix>(100);
   let mut mr = MessageReceiver::new(own, ack_tx, live_tx, None);
-  let rguid = GUID::new(own, EntityId::new([0, 0, 1], EntityKind::READER_WITH_KEY_USER_DEFINED));
+  let rguid = GUID::new(own, reader_eid());
   let mut rk = mk::make_reader(rguid, "c06_topic", reliable_qos());
-  for p in [P_W1, P_W2] {
-    let wg = GUID::new(
-      GuidPrefix::new(&p),
-      EntityId::new([0, 0, 2], EntityKind::WRITER_WITH_KEY_USER_DEFINED),
-    );
+  for p in [1u8, 2] {
     let loc = crate::structure::locator::Locator::from(std::net::SocketAddr::from((
       [127, 0, 0, 1],
-      17400 + p[0] as u16,
+      17400 + p as u16,
     )));
     rk.reader.update_writer_proxy(
-      RtpsWriterProxy::new(wg, vec![loc], vec![], EntityId::UNKNOWN),
+      RtpsWriterProxy::new(writer_guid(p), vec![loc], vec![], EntityId::UNKNOWN),
       &reliable_qos(),
     );
   }
   let topic_cache = rk.topic_cache.clone();
-  let rest = (rk.status, rk.notification, rk.dds_cache);
+  let rest: Box<dyn std::any::Any> = Box::new((rk.status, rk.notification, rk.dds_cache, rk.cmd, rk.participant_status));
   mr.add_reader(rk.reader);
   let lw = GUID::new(own, EntityId::new([0, 0, 3], EntityKind::WRITER_WITH_KEY_USER_DEFINED));
   let mut wk = mk::make_writer(lw, "c06_wtopic", reliable_qos());
-  let rr = GUID::new(
-    GuidPrefix::new(&P_W1),
-    EntityId::new([0, 0, 4], EntityKind::READER_WITH_KEY_USER_DEFINED),
-  );
-  wk.writer
-    .update_reader_proxy(&RtpsReaderProxy::new(rr, reliable_qos(), false), &reliable_qos());
+  let mut rp = RtpsReaderProxy::new(rreader_guid(1), reliable_qos(), false);
+  rp.unicast_locator_list = vec![crate::structure::locator::Locator::from(std::net::SocketAddr::from((
+    [127, 0, 0, 1],
+    17499,
+  )))];
+  wk.writer.update_reader_proxy(&rp, &reliable_qos());
+  // history: samples 1, 2 (one fragment each) and 3 (three fragments of the writer's fragment size)
+  let fs = wk.writer.data_max_size_serialized;
+  for (sn, n) in [(1i64, 8usize), (2, 40), (3, 2 * fs + 100)] {
+    let payload = SerializedPayload::from_bytes(&Bytes::from(cdr_payload(n - 4))).unwrap();
+    let cmd = WriterCommand::DDSData {
+      ddsdata: DDSData::new(payload),
+      write_options: WriteOptions::default(),
+      sequence_number: SequenceNumber::new(sn),
+    };
+    wk.cmd.try_send(cmd).ok();
+    wk.writer.process_writer_command();
+  }
+  capture::drain();
   Sut { mr, ack_rx, _live_rx: live_rx, wk, topic_cache, _rk_rest: rest }
 }
 
@@ -240,7 +311,8 @@ impl Sut {
       self.wk.writer.handle_ack_nack(prefix, &sub);
     }
   }
-  fn cache_len(&self) -> usize {
+  /// (writer source, sn) of the changes in the topic cache, in arrival order
+  fn delivered(&self) -> Vec<(u8, i64)> {
     self
       .topic_cache
       .lock()
@@ -249,24 +321,28 @@ impl Sut {
         crate::structure::time::Timestamp::ZERO,
         crate::structure::time::Timestamp::now(),
       )
-      .count()
+      .map(|(_, cc)| (cc.writer_guid.prefix.bytes[0], i64::from(cc.sequence_number)))
+      .collect()
   }
 }
 
-/// the ACKNACK the reader sent in reply (base, set bits), if any
-fn last_acknack(dgs: &[(crate::structure::locator::Locator, Vec<u8>)]) -> Option<(i64, Vec<i64>)> {
-  let mut res = None;
+/// the ACKNACKs among the captured datagrams: (destination source, base, set)
+fn acknacks(dgs: &[(crate::structure::locator::Locator, Vec<u8>)]) -> Vec<(u8, i64, Vec<i64>)> {
+  let mut res = Vec::new();
   for (_, b) in dgs {
     if let Ok(m) = Message::read_from_buffer(&Bytes::copy_from_slice(b)) {
+      let mut dst = 0u8;
       for s in m.submessages {
-        if let crate::rtps::SubmessageBody::Reader(
-          crate::messages::submessages::submessages::ReaderSubmessage::AckNack(an, _),
-        ) = s.body
-        {
-          res = Some((
+        match s.body {
+          SubmessageBody::Interpreter(InterpreterSubmessage::InfoDestination(d, _)) => {
+            dst = d.guid_prefix.bytes[0]
+          }
+          SubmessageBody::Reader(ReaderSubmessage::AckNack(an, _)) => res.push((
+            dst,
             i64::from(an.reader_sn_state.base()),
             an.reader_sn_state.iter().map(i64::from).collect(),
-          ));
+          )),
+          _ => {}
         }
       }
     }
@@ -274,108 +350,136 @@ fn last_acknack(dgs: &[(crate::structure::locator::Locator, Vec<u8>)]) -> Option
   res
 }
 
-#[derive(Debug, Clone)]
-pub struct CaseResult {
-  pub outcomes: Vec<&'static str>, // per hostile datagram: "Ok" | "Panic"
-  pub max_alloc: u64,
-  pub max_ms: u128,
-  pub w1_base: Option<i64>,       // ACKNACK base answering the W1 probe heartbeat
-  pub w2_delivered: bool,         // the well-behaved writer's sample reached the cache
-  pub w2_base: Option<i64>,       // ... and was acknowledged
-  pub hang: bool,
+/// run-length encoded (maximal runs), as Model.rle
+fn coq_bools(v: &[bool]) -> String {
+  let mut runs: Vec<(usize, bool)> = Vec::new();
+  for b in v {
+    match runs.last_mut() {
+      Some((n, x)) if x == b => *n += 1,
+      _ => runs.push((1, *b)),
+    }
+  }
+  util::list(runs.iter().map(|(n, b)| format!("({}, {})", n, util::b(*b))))
+}
+/// Lists are cut at 3000 elements (a state that large already disagrees with the model, and a
+/// longer literal would overflow the stack of Coq's parser).
+fn coq_zs(v: &[i64]) -> String {
+  util::list(v.iter().take(3000).map(|x| util::z(*x as i128)))
 }
 
-fn run_case(dgs: Vec<Vec<u8>>, probe_last: i64) -> CaseResult {
-  let (tx, rx) = mpsc::channel();
-  let n = dgs.len();
-  thread::spawn(move || {
-    capture::enable();
-    let mut sut = build_sut();
-    let mut outcomes = Vec::new();
-    let mut max_alloc = 0;
-    let mut max_ms = 0;
-    let mut dead = false;
-    for d in &dgs {
-      let a0 = allocated();
-      let t0 = Instant::now();
-      let r = std::panic::catch_unwind(std::panic::AssertUnwindSafe(|| sut.feed(d)));
-      max_ms = max_ms.max(t0.elapsed().as_millis());
-      max_alloc = max_alloc.max(allocated().saturating_sub(a0));
-      let _ = tx.send(None);
-      match r {
-        Ok(()) => outcomes.push("Ok"),
-        Err(_) => {
-          outcomes.push("Panic");
-          dead = true;
-          break;
-        }
-      }
-    }
-    capture::drain();
-    let mut res = CaseResult {
-      outcomes,
-      max_alloc,
-      max_ms,
-      w1_base: None,
-      w2_delivered: false,
-      w2_base: None,
-      hang: false,
-    };
-    if !dead {
-      // the participant must keep working: W1's state is probed with a non-final heartbeat,
-      // and a well-behaved peer W2 sends one sample + heartbeat
-      let r = std::panic::catch_unwind(std::panic::AssertUnwindSafe(|| {
-        sut.feed(&datagram(
-          &P_W1,
-          &[Sub::Heartbeat { first: 1, last: probe_last, count: i32::MAX, fin: false }],
-        ));
-        let w1 = last_acknack(&capture::drain());
-        let before = sut.cache_len();
-        sut.feed(&datagram(
-          &P_W2,
-          &[
-            Sub::Data { sn: 1, payload: cdr_payload(8) },
-            Sub::Heartbeat { first: 1, last: 1, count: 1, fin: false },
-          ],
-        ));
-        let w2 = last_acknack(&capture::drain());
-        (w1, sut.cache_len() > before, w2)
-      }));
-      if let Ok((w1, deliv, w2)) = r {
-        res.w1_base = w1.map(|x| x.0);
-        res.w2_delivered = deliv;
-        res.w2_base = w2.map(|x| x.0);
-      } else {
-        res.outcomes.push("Panic");
-      }
-    }
-    let _ = tx.send(Some(res));
-  });
-  // watchdog: 4 s without progress = hang
-  let mut done = 0;
-  loop {
-    match rx.recv_timeout(StdDuration::from_secs(6)) {
-      Ok(Some(r)) => return r,
-      Ok(None) => done += 1,
+fn digest(sut: &mut Sut) -> String {
+  let deliv: Vec<(u8, i64)> = sut.delivered();
+  let r = sut.mr.reader_mut(reader_eid()).unwrap();
+  let (base, changes, hb) = r.verif_writer_proxy_digest(writer_guid(1)).unwrap();
+  let mut bufs: Vec<(u8, Vec<(i64, usize, Vec<bool>)>)> = r
+    .verif_assemblers_digest()
+    .into_iter()
+    .map(|(g, v)| (g.prefix.bytes[0], v))
+    .collect();
+  bufs.sort_by_key(|x| x.0);
+  let (acked, unsent, frags) = sut.wk.writer.verif_reader_proxy_digest(rreader_guid(1)).unwrap();
+  format!(
+    "(Build_digest {} {} {} {} {} {} {} {})",
+    util::z(base as i128),
+    coq_zs(&changes),
+    util::z(hb as i128),
+    util::list(bufs.iter().map(|(w, v)| format!(
+      "({}, {})",
+      w,
+      util::list(v.iter().map(|(sn, len, bm)| format!("({}, ({}, {}))", util::z(*sn as i128), len, coq_bools(bm))))
+    ))),
+    util::list(deliv.iter().map(|(w, sn)| format!("({}, {})", w, util::z(*sn as i128)))),
+    util::z(acked as i128),
+    coq_zs(&unsent),
+    util::list(frags.iter().map(|(sn, bm)| format!("({}, {})", util::z(*sn as i128), coq_bools(bm))))
+  )
+}
+
+struct CaseResult {
+  outcomes: Vec<&'static str>, // per datagram: "Ok" | "Crash"
+  parsed: Vec<bool>,           // per datagram: verdict of the real Message::read_from_buffer
+  replies: Vec<(u8, i64, Vec<i64>)>,
+  digest: Option<String>,
+  w2_delivered: bool,
+  w2_base: Option<i64>,
+  max_alloc: u64,
+  retained: i64,
+  max_ms: u128,
+}
+
+fn run_case(dgs: &[Vec<u8>]) -> CaseResult {
+  capture::enable();
+  capture::drain();
+  let mut sut = build_sut();
+  let live0 = live();
+  let mut res = CaseResult {
+    outcomes: Vec::new(),
+    parsed: Vec::new(),
+    replies: Vec::new(),
+    digest: None,
+    w2_delivered: false,
+    w2_base: None,
+    max_alloc: 0,
+    retained: 0,
+    max_ms: 0,
+  };
+  let mut dead = false;
+  for d in dgs {
+    let a0 = allocated();
+    let t0 = Instant::now();
+    let r = std::panic::catch_unwind(std::panic::AssertUnwindSafe(|| sut.feed(d)));
+    res.max_ms = res.max_ms.max(t0.elapsed().as_millis());
+    res.max_alloc = res.max_alloc.max(allocated().saturating_sub(a0));
+    res.replies.extend(acknacks(&capture::drain()));
+    match r {
+      Ok(()) => res.outcomes.push("Ok"),
       Err(_) => {
-        let mut outcomes = vec!["Ok"; done.min(n)];
-        outcomes.push("Hang");
-        return CaseResult {
-          outcomes,
-          max_alloc: 0,
-          max_ms: 6000,
-          w1_base: None,
-          w2_delivered: false,
-          w2_base: None,
-          hang: true,
-        };
+        res.outcomes.push("Crash");
+        dead = true;
+        break;
       }
     }
   }
+  if !dead {
+    res.retained = live() - live0;
+    // the parser's verdicts (no effect on the state)
+    for d in dgs {
+      let p = std::panic::catch_unwind(|| Message::read_from_buffer(&Bytes::copy_from_slice(d)).is_ok());
+      res.parsed.push(d.len() >= 20 && &d[0..4] == b"RTPS" && p.unwrap_or(false));
+    }
+    res.digest = Some(digest(&mut sut));
+    // the participant must keep working: a well-behaved peer sends one sample + heartbeat
+    let r = std::panic::catch_unwind(std::panic::AssertUnwindSafe(|| {
+      sut.feed(&datagram(&Dgram {
+        src: 2,
+        subs: vec![
+          Sub::Data { sn: 1, payload: cdr_payload(8) },
+          Sub::Heartbeat { first: 1, last: 1, count: 1, fin: false },
+        ],
+      }));
+      let w2 = acknacks(&capture::drain());
+      (sut.delivered().contains(&(2, 1)), w2)
+    }));
+    match r {
+      Ok((deliv, w2)) => {
+        res.w2_delivered = deliv;
+        res.w2_base = match w2.as_slice() {
+          [(2, b, _)] => Some(*b),
+          _ => None,
+        };
+      }
+      Err(_) => res.outcomes.push("Crash"),
+    }
+  }
+  while res.parsed.len() < dgs.len() {
+    res.parsed.push(false);
+  }
+  capture::disable();
+  res
 }
 
 // ---------- generation ----------
-const EDGE: [i64; 22] = [
+const EDGE: [i64; 24] = [
   i64::MIN,
   i64::MIN + 1,
   -(1 << 32),
@@ -396,6 +500,8 @@ const EDGE: [i64; 22] = [
   1 << 32,
   (1 << 32) + 1,
   1 << 40,
+  i64::MAX - 65537,
+  i64::MAX - 65536,
   i64::MAX - 1,
   i64::MAX,
 ];
@@ -409,7 +515,7 @@ fn edge(r: &mut Rng) -> i64 {
   }
 }
 fn edge_u32(r: &mut Rng) -> u32 {
-  *r.pick(&[0u32, 1, 2, 3, 31, 32, 33, 255, 256, 257, 65535, 65536, 1 << 31, u32::MAX - 1, u32::MAX])
+  *r.pick(&[0u32, 1, 2, 3, 31, 32, 33, 255, 256, 257, 65535, 65536, 1 << 31, u32::MAX - 65537, u32::MAX - 65536, u32::MAX - 1, u32::MAX])
 }
 fn words(r: &mut Rng, numbits: u32) -> Vec<u32> {
   let n = ((numbits.min(512) + 31) / 32) as usize;
@@ -422,165 +528,562 @@ fn words(r: &mut Rng, numbits: u32) -> Vec<u32> {
     })
     .collect()
 }
-
-/// Known-finding classes (syntactic, on the case itself).
-fn kf_class(subs: &[Sub]) -> &'static str {
-  for s in subs {
-    match s {
-      // GAP whose [start, base) range is inserted element by element (irrelevant_changes_range,
-      // else-branch): cost proportional to base - start
-      Sub::Gap { start, base, .. } if *start >= 1 && *base >= 1 && base.saturating_sub(*start) > 100_000 => {
-        return "C06-gap-span"
-      }
-      // one DATAFRAG makes the assembler allocate sampleSize bytes
-      Sub::DataFrag { total, .. } if *total > 4_000_000 => return "C06-datafrag-size",
-      _ => {}
-    }
+fn numbits(r: &mut Rng) -> u32 {
+  if r.chance(7, 8) {
+    *r.pick(&[0u32, 1, 2, 8, 31, 32, 33, 64, 100, 255, 256])
+  } else {
+    edge_u32(r)
   }
-  ""
 }
 
-fn gen_sub(r: &mut Rng, spans_small: bool) -> Sub {
-  let clamp = |x: i64, lo: i64| if spans_small { x.clamp(lo, lo.saturating_add(2000)) } else { x };
-  match r.below(10) {
+fn sub_known(s: &Sub) -> bool {
+  match s {
+    Sub::DataFrag { total, payload, .. } => (*total as u64) > 64 * payload.len() as u64 + 1024,
+    Sub::Blob { bytes } => blob_known_datafrag(bytes) > 0,
+    _ => false,
+  }
+}
+fn sub_too_big(s: &Sub) -> bool {
+  matches!(s, Sub::DataFrag { total, .. } if *total > 4195264)
+}
+
+fn gen_raw(r: &mut Rng) -> Sub {
+  let n = r.range(0, 48) as usize;
+  let mut body: Vec<u8> = (0..n).map(|_| if r.chance(1, 3) { 0 } else { r.next() as u8 }).collect();
+  let id = *r.pick(&[0x01u8, 0x06, 0x07, 0x08, 0x09, 0x0c, 0x0d, 0x0e, 0x0f, 0x12, 0x13, 0x15, 0x16, 0x30, 0x31, 0x32, 0x33, 0x34, 0x80, 0x81, 0xff, 0x00, 0x02]);
+  if r.chance(1, 2) && body.len() >= 12 {
+    // plausible entity ids so that the submessage reaches a Reader / the Writer
+    let off = if id == 0x15 || id == 0x16 { 4 } else { 0 };
+    if id == 0x15 || id == 0x16 {
+      body[2] = *r.pick(&[16u8, 28, 0, 15, 17, 255]);
+      body[3] = *r.pick(&[0u8, 0, 0, 255]);
+    }
+    if body.len() >= off + 8 {
+      let (a, b) = if id == 0x06 || id == 0x12 { (E_RREADER, E_LWRITER) } else { (E_READER, E_RWRITER) };
+      body[off..off + 4].copy_from_slice(&a);
+      body[off + 4..off + 8].copy_from_slice(&b);
+    }
+  }
+  Sub::Raw {
+    id,
+    flags: if r.chance(1, 2) { r.next() as u8 } else { 1 | (r.next() as u8 & 0x0e) },
+    body,
+    len_field: if r.chance(1, 2) { Some(*r.pick(&[0u16, 1, 3, 4, 8, 12, 100, 65535])) } else { None },
+  }
+}
+
+fn gen_sub(r: &mut Rng) -> Sub {
+  match r.below(12) {
     0 | 1 => {
       let first = edge(r);
-      let last = if r.chance(1, 2) { clamp(edge(r), first.saturating_sub(2)) } else { first.saturating_add(r.range(-2, 300)) };
-      Sub::Heartbeat { first, last, count: r.range(1, 1 << 20) as i32, fin: r.chance(1, 2) }
+      let last = if r.chance(1, 2) { edge(r) } else { first.saturating_add(r.range(-2, 300)) };
+      Sub::Heartbeat { first, last, count: r.range(-2, 1 << 20) as i32, fin: r.chance(1, 2) }
     }
     2 | 3 => {
       let start = edge(r);
-      let base = if r.chance(1, 2) { clamp(edge(r), start.saturating_sub(2)) } else { start.saturating_add(r.range(-2, 300)) };
-      let numbits = if r.chance(3, 4) { r.range(0, 256) as u32 } else { edge_u32(r) };
-      Sub::Gap { start, base, numbits, words: words(r, numbits) }
+      let base = if r.chance(1, 2) { edge(r) } else { start.saturating_add(r.range(-2, 300)) };
+      let nb = numbits(r);
+      Sub::Gap { start, base, numbits: nb, words: words(r, nb) }
     }
     4 => Sub::Data { sn: edge(r), payload: cdr_payload(r.range(0, 40) as usize) },
-    5 => {
-      let fsize = *r.pick(&[0u16, 1, 4, 7, 8, 1024, 60000, 65535]);
-      let total = if r.chance(3, 4) { r.range(0, 64) as u32 } else { edge_u32(r) };
+    5 | 6 => {
+      let fsize = *r.pick(&[0u16, 1, 2, 4, 7, 8, 8, 8, 1024, 60000, 65535]);
+      let payload = cdr_payload(r.range(0, 28) as usize);
+      let total = match r.below(6) {
+        0 => edge_u32(r),
+        1 => (64 * payload.len() as u32 + 1024).saturating_add(r.range(-1, 1) as u32),
+        _ => r.range(0, 80) as u32,
+      };
       Sub::DataFrag {
-        sn: edge(r),
-        start: if r.chance(3, 4) { r.range(0, 20) as u32 } else { edge_u32(r) },
-        in_sub: *r.pick(&[0u16, 1, 2, 3, 255, 65535]),
+        sn: if r.chance(3, 4) { r.range(1, 4) } else { edge(r) },
+        start: if r.chance(3, 4) { r.range(0, 12) as u32 } else { edge_u32(r) },
+        in_sub: *r.pick(&[0u16, 1, 1, 1, 2, 3, 255, 65535]),
         fsize,
-        total: if spans_small { total.min(3_000_000) } else { total },
-        payload: cdr_payload(r.range(0, 24) as usize),
+        // keep the size of what the model has to evaluate (and the real code has to zero) sane
+        total: if total > 4195264 { 300_000 } else { total },
+        payload,
       }
     }
-    6 | 7 => {
-      let numbits = if r.chance(3, 4) { r.range(0, 256) as u32 } else { edge_u32(r) };
-      Sub::AckNack { base: edge(r), numbits, words: words(r, numbits), count: r.range(-3, 1000) as i32 }
+    7 | 8 => {
+      let nb = numbits(r);
+      Sub::AckNack { base: edge(r), numbits: nb, words: words(r, nb), count: r.range(-3, 1000) as i32 }
     }
-    8 => {
-      let numbits = if r.chance(3, 4) { r.range(0, 256) as u32 } else { edge_u32(r) };
-      Sub::NackFrag { sn: edge(r), base: edge_u32(r), numbits, words: words(r, numbits), count: r.range(0, 100) as i32 }
+    9 => {
+      let nb = numbits(r);
+      Sub::NackFrag {
+        sn: if r.chance(3, 4) { r.range(1, 4) } else { edge(r) },
+        base: if r.chance(1, 2) { r.range(0, 5) as u32 } else { edge_u32(r) },
+        numbits: nb,
+        words: words(r, nb),
+        count: r.range(0, 100) as i32,
+      }
     }
-    _ => match r.below(3) {
+    10 => match r.below(4) {
       0 => Sub::HeartbeatFrag { sn: edge(r), last_frag: edge_u32(r), count: r.range(0, 100) as i32 },
       1 => Sub::InfoTs { sec: edge_u32(r), frac: edge_u32(r) },
+      2 => Sub::InfoDst { who: *r.pick(&[0u8, OWN, OWN, 7]) },
+      _ => Sub::InfoSrc { who: *r.pick(&[1u8, 1, 3, 4]) },
+    },
+    _ => Sub::Heartbeat { first: r.range(1, 5), last: r.range(0, 300), count: r.range(1, 1 << 20) as i32, fin: r.chance(1, 2) },
+  }
+}
+
+/// hostile stream: 1-4 datagrams of 1-3 submessages with extreme field values
+fn gen_hostile(r: &mut Rng) -> Vec<Dgram> {
+  let ndg = r.range(1, 4) as usize;
+  (0..ndg)
+    .map(|_| {
+      let ns = r.range(1, 3) as usize;
+      let mut subs: Vec<Sub> = (0..ns).map(|_| gen_sub(r)).collect();
+      if r.chance(1, 6) {
+        subs.push(gen_raw(r));
+      }
+      Dgram { src: *r.pick(&[1u8, 1, 1, 1, 3]), subs }
+    })
+    .collect()
+}
+
+/// mostly valid traffic of writer 1 and of the remote reader: DATA in order with losses and
+/// duplicates, a fragmented sample, HEARTBEATs, GAPs, ACKNACKs / NACKFRAGs with sane values
+fn gen_valid(r: &mut Rng) -> Vec<Dgram> {
+  let n = r.range(3, 14) as usize;
+  let fs = *r.pick(&[4u16, 8, 8, 16]);
+  let frag_sn = r.range(1, 6);
+  let total = r.range(fs as i64 + 1, 6 * fs as i64) as u32;
+  let nfr = (total + fs as u32 - 1) / fs as u32;
+  let mut hbc = 0;
+  let mut next_sn = 1i64;
+  let mut out = Vec::new();
+  for _ in 0..n {
+    let mut subs = Vec::new();
+    if r.chance(1, 4) {
+      subs.push(Sub::InfoTs { sec: 1_700_000_000, frac: r.next() as u32 });
+    }
+    match r.below(9) {
+      0..=2 => {
+        if next_sn == frag_sn {
+          next_sn += 1;
+        }
+        if !r.chance(1, 5) {
+          subs.push(Sub::Data { sn: next_sn, payload: cdr_payload(r.range(0, 24) as usize) });
+        }
+        next_sn += 1;
+      }
+      3 | 4 => {
+        let k = r.range(1, nfr as i64) as u32;
+        let cnt = if r.chance(1, 4) { r.range(1, (nfr - k + 1) as i64) as u32 } else { 1 };
+        let from = (k - 1) * fs as u32;
+        let to = ((k - 1 + cnt) * fs as u32).min(total);
+        let mut payload: Vec<u8> = (from..to).map(|i| if i < 4 { [0u8, 1, 0, 0][i as usize] } else { i as u8 }).collect();
+        pad4(&mut payload);
+        subs.push(Sub::DataFrag { sn: frag_sn, start: k, in_sub: cnt as u16, fsize: fs, total, payload });
+      }
+      5 => {
+        hbc += 1;
+        subs.push(Sub::Heartbeat { first: r.range(1, 2.max(next_sn - 3)), last: next_sn - 1 + r.range(0, 2), count: hbc, fin: r.chance(1, 2) });
+      }
+      6 => {
+        let start = r.range(1, next_sn + 2);
+        let base = start + r.range(0, 5);
+        let nb = *r.pick(&[0u32, 3, 8, 32]);
+        subs.push(Sub::Gap { start, base, numbits: nb, words: (0..(nb + 31) / 32).map(|_| r.next() as u32 & 0xf0f0_0000).collect() });
+        next_sn = next_sn.max(base);
+      }
+      7 => {
+        let nb = *r.pick(&[0u32, 2, 3]);
+        subs.push(Sub::AckNack { base: r.range(1, 4), numbits: nb, words: (0..(nb + 31) / 32).map(|_| r.next() as u32).collect(), count: r.range(1, 100) as i32 });
+      }
       _ => {
-        let n = r.range(0, 40) as usize;
-        Sub::Raw {
-          id: *r.pick(&[0x01u8, 0x06, 0x07, 0x08, 0x09, 0x0c, 0x0d, 0x0e, 0x0f, 0x12, 0x13, 0x15, 0x16, 0x30, 0x31, 0x32, 0x33, 0x80, 0xff]),
-          flags: r.next() as u8,
-          body: (0..n).map(|_| r.next() as u8).collect(),
-          len_field: if r.chance(1, 2) { Some(*r.pick(&[0u16, 1, 3, 4, 8, 100, 65535])) } else { None },
+        subs.push(Sub::NackFrag { sn: r.range(1, 3), base: r.range(1, 3) as u32, numbits: 3, words: vec![r.next() as u32], count: 1 });
+      }
+    }
+    if !subs.is_empty() {
+      out.push(Dgram { src: 1, subs });
+    }
+  }
+  out
+}
+
+/// Largest data_size announced by a DATA_FRAG submessage of a raw datagram that is out of
+/// proportion to the payload it carries (the known-finding class, recognised on bytes with the
+/// framing rules of Submessage::read_from_buffer); 0 if there is none.
+fn blob_known_datafrag(b: &[u8]) -> u32 {
+  let mut worst = 0u32;
+  let mut pos = 20usize;
+  while pos + 4 <= b.len() {
+    let id = b[pos];
+    let le = b[pos + 1] & 1 == 1;
+    let rd16 = |o: usize| -> u16 {
+      let x = [b[o], b[o + 1]];
+      if le { u16::from_le_bytes(x) } else { u16::from_be_bytes(x) }
+    };
+    let mut len = rd16(pos + 2) as usize;
+    if len == 0 && id != 0x01 && id != 0x09 {
+      len = b.len() - pos - 4;
+    }
+    if pos + 4 + len > b.len() {
+      break;
+    }
+    let body = &b[pos + 4..pos + 4 + len];
+    if id == 0x16 && body.len() >= 32 {
+      let x = [body[28], body[29], body[30], body[31]];
+      let data_size = if le { u32::from_le_bytes(x) } else { u32::from_be_bytes(x) };
+      let y = [body[2], body[3]];
+      let oiq = if le { u16::from_le_bytes(y) } else { u16::from_be_bytes(y) } as usize;
+      let payload = body.len().saturating_sub(4 + oiq);
+      if data_size as u64 > 64 * payload as u64 + 1024 {
+        worst = worst.max(data_size);
+      }
+    }
+    pos += 4 + len;
+  }
+  worst
+}
+
+/// byte-level mutation / truncation of a well-formed datagram
+fn gen_mutated(r: &mut Rng) -> Vec<Dgram> {
+  let base = if r.chance(1, 2) { gen_valid(r) } else { gen_hostile(r) };
+  base
+    .iter()
+    .map(|d| {
+      let mut b = datagram(d);
+      match r.below(5) {
+        0 => {
+          let k = r.below(b.len() as u64 + 1) as usize;
+          b.truncate(k);
+        }
+        1 => {
+          for _ in 0..r.range(1, 4) {
+            let i = r.below(b.len() as u64) as usize;
+            b[i] ^= 1 << r.below(8);
+          }
+        }
+        2 => {
+          for _ in 0..r.range(1, 3) {
+            let i = r.below(b.len() as u64) as usize;
+            b[i] = *r.pick(&[0u8, 1, 0x7f, 0x80, 0xff]);
+          }
+        }
+        3 => {
+          // corrupt a length field of the first submessage
+          if b.len() >= 24 {
+            let v = *r.pick(&[0u16, 1, 2, 3, 5, 0x7fff, 0xffff, (b.len() - 24) as u16 + 1, (b.len() as u16).wrapping_sub(25)]);
+            b[22..24].copy_from_slice(&v.to_le_bytes());
+          }
+        }
+        _ => {
+          let extra = r.range(1, 9) as usize;
+          b.extend((0..extra).map(|_| r.next() as u8));
         }
       }
-    },
-  }
+      // the known-finding class is represented by structured cases; a mutant announcing more
+      // than 16 MB would only slow the run down (the buffer is zeroed): cut it short instead
+      if blob_known_datafrag(&b) > (1 << 24) {
+        b.truncate(40);
+      }
+      Dgram { src: d.src, subs: vec![Sub::Blob { bytes: b }] }
+    })
+    .collect()
+}
+
+fn raw_data(flags: u8, oiq: u16, sn: i64, rest: &[u8]) -> Sub {
+  let mut body = Vec::new();
+  body.extend_from_slice(&0u16.to_le_bytes());
+  body.extend_from_slice(&oiq.to_le_bytes());
+  body.extend_from_slice(&E_READER);
+  body.extend_from_slice(&E_RWRITER);
+  sn_bytes(sn, &mut body);
+  body.extend_from_slice(rest);
+  let l = body.len() as u16;
+  Sub::Raw { id: 0x15, flags, body, len_field: Some(l) }
+}
+fn param(pid: u16, len: u16, val: &[u8]) -> Vec<u8> {
+  let mut v = Vec::new();
+  v.extend_from_slice(&pid.to_le_bytes());
+  v.extend_from_slice(&len.to_le_bytes());
+  v.extend_from_slice(val);
+  v
+}
+
+fn corpus() -> Vec<Vec<Dgram>> {
+  let hb = |first, last, count| Sub::Heartbeat { first, last, count, fin: false };
+  let d1 = |subs: Vec<Sub>| Dgram { src: 1, subs };
+  let data = |sn| Sub::Data { sn, payload: cdr_payload(4) };
+  let sentinel = param(1, 0, &[]);
+  let mut v: Vec<Vec<Dgram>> = vec![
+    vec![], // 0: no hostile traffic at all
+    // F6: heartbeat advertising a huge range (eef2682)
+    vec![d1(vec![hb(1, 1 << 40, 1)])],
+    vec![d1(vec![hb(1, i64::MAX, 1)])],
+    // numbers too large for overflow-free arithmetic (4e0d9c9)
+    vec![d1(vec![hb(i64::MAX, i64::MAX, 1)]), d1(vec![data(i64::MAX)])],
+    vec![d1(vec![hb(i64::MAX - 1, i64::MAX, 1)]), d1(vec![data(i64::MAX - 1)]), d1(vec![data(i64::MAX)])],
+    vec![d1(vec![Sub::Gap { start: i64::MAX - 3, base: i64::MAX - 2, numbits: 32, words: vec![u32::MAX] }])],
+    vec![d1(vec![Sub::AckNack { base: i64::MAX - 2, numbits: 32, words: vec![u32::MAX], count: 1 }])],
+    vec![d1(vec![Sub::NackFrag { sn: 3, base: u32::MAX - 2, numbits: 32, words: vec![u32::MAX], count: 1 }])],
+    vec![d1(vec![Sub::NackFrag { sn: 3, base: 0, numbits: 32, words: vec![u32::MAX], count: 1 }])],
+    // just inside the accepted range
+    vec![d1(vec![hb(i64::MAX - 65536, i64::MAX - 65536, 1)]), d1(vec![data(i64::MAX - 65536)]), d1(vec![hb(1, i64::MAX - 65536, 2)])],
+    vec![d1(vec![Sub::Gap { start: i64::MAX - 65537, base: i64::MAX - 65536, numbits: 256, words: vec![u32::MAX; 8] }]), d1(vec![hb(1, 5, 1)])],
+    vec![d1(vec![Sub::AckNack { base: i64::MAX - 65536, numbits: 256, words: vec![u32::MAX; 8], count: 1 }])],
+    vec![d1(vec![Sub::NackFrag { sn: 3, base: u32::MAX - 65536, numbits: 256, words: vec![u32::MAX; 8], count: 1 }])],
+    // F2: inconsistent DATAFRAG fields (67917b6)
+    vec![d1(vec![Sub::DataFrag { sn: 1, start: 1, in_sub: 65535, fsize: 4, total: 8, payload: cdr_payload(4) }])],
+    vec![
+      d1(vec![Sub::DataFrag { sn: 1, start: 1, in_sub: 1, fsize: 60000, total: 120000, payload: cdr_payload(60000 - 4) }]),
+      d1(vec![Sub::DataFrag { sn: 2, start: 10, in_sub: 1, fsize: 1, total: 10, payload: cdr_payload(0) }]),
+    ],
+    vec![
+      d1(vec![Sub::DataFrag { sn: 1, start: 1, in_sub: 1, fsize: 8, total: 16, payload: cdr_payload(4) }]),
+      d1(vec![Sub::DataFrag { sn: 1, start: 2, in_sub: 1, fsize: 8, total: 64, payload: cdr_payload(4) }]),
+    ],
+    vec![d1(vec![Sub::DataFrag { sn: 1, start: 0, in_sub: 1, fsize: 8, total: 16, payload: cdr_payload(4) }])],
+    vec![d1(vec![Sub::DataFrag { sn: 1, start: 1, in_sub: 1, fsize: 0, total: 16, payload: cdr_payload(4) }])],
+    // F6b: GAP above ack_base with a huge span (was: one map entry per sequence number)
+    vec![d1(vec![Sub::Gap { start: 5, base: 5 + 300_000, numbits: 0, words: vec![] }])],
+    vec![d1(vec![Sub::Gap { start: 5, base: 1 << 40, numbits: 0, words: vec![] }]), d1(vec![data(1), data(2), data(3), data(4)]), d1(vec![hb(1, 1 << 40, 1)])],
+    vec![d1(vec![Sub::Gap { start: 2, base: i64::MAX - 65536, numbits: 256, words: vec![u32::MAX; 8] }])],
+    // NACKFRAG generation for a sample of many tiny fragments (was: all missing numbers collected)
+    vec![
+      d1(vec![Sub::DataFrag { sn: 1, start: 1, in_sub: 1024, fsize: 1, total: 60000, payload: cdr_payload(1020) }]),
+      d1(vec![hb(1, 1, 1)]),
+      d1(vec![hb(1, 1, 2)]),
+    ],
+    // F7 (known finding): one small DATAFRAG makes the assembler allocate data_size bytes
+    vec![d1(vec![Sub::DataFrag { sn: 1, start: 1, in_sub: 1, fsize: 1024, total: 8_000_000, payload: cdr_payload(1020) }])],
+    vec![d1(vec![Sub::DataFrag { sn: 1, start: 1954, in_sub: 1, fsize: 1024, total: 2_000_001, payload: cdr_payload(0) }])],
+    // a completed fragmented sample, then the same fragments again
+    vec![
+      d1(vec![Sub::DataFrag { sn: 1, start: 1, in_sub: 1, fsize: 8, total: 12, payload: cdr_payload(4) }]),
+      d1(vec![Sub::DataFrag { sn: 1, start: 2, in_sub: 1, fsize: 8, total: 12, payload: vec![9, 9, 9, 9] }]),
+      d1(vec![Sub::DataFrag { sn: 1, start: 2, in_sub: 1, fsize: 8, total: 12, payload: vec![9, 9, 9, 9] }]),
+      d1(vec![hb(1, 1, 1)]),
+    ],
+    // INFO_DST to somebody else / INFO_SRC to an unmatched source: the rest must be ignored
+    vec![d1(vec![Sub::InfoDst { who: 7 }, data(1), hb(1, 1, 1)]), d1(vec![Sub::InfoSrc { who: 3 }, data(1), Sub::DataFrag { sn: 1, start: 1, in_sub: 1, fsize: 8, total: 12, payload: cdr_payload(4) }])],
+    // ACKNACK / NACKFRAG against the writer's real history
+    vec![d1(vec![Sub::AckNack { base: 1, numbits: 8, words: vec![0xff00_0000], count: 1 }, Sub::NackFrag { sn: 3, base: 1, numbits: 8, words: vec![0xff00_0000], count: 2 }])],
+    vec![d1(vec![Sub::AckNack { base: 4, numbits: 0, words: vec![], count: 1 }]), d1(vec![Sub::AckNack { base: 0, numbits: 256, words: vec![u32::MAX; 8], count: 2 }])],
+    vec![d1(vec![Sub::NackFrag { sn: 1, base: 1, numbits: 256, words: vec![u32::MAX; 8], count: 1 }, Sub::NackFrag { sn: 4, base: 1, numbits: 1, words: vec![1 << 31], count: 2 }])],
+    // INFO_REPLY claiming 2^32-1 locators (94dd595), other raw framing cases
+    vec![d1(vec![Sub::Raw { id: 0x0f, flags: 1, body: vec![0xff, 0xff, 0xff, 0xff, 0, 0, 0, 0], len_field: None }])],
+    vec![d1(vec![Sub::Raw { id: 0x0f, flags: 3, body: vec![0, 0, 0, 0, 0xff, 0xff, 0xff, 0x7f], len_field: None }])],
+    vec![d1(vec![data(1), Sub::Raw { id: 0x07, flags: 1, body: vec![0; 28], len_field: Some(65535) }])],
+    vec![d1(vec![data(1), Sub::Raw { id: 0x07, flags: 1, body: vec![0; 28], len_field: Some(0) }])],
+    vec![d1(vec![data(1), Sub::Raw { id: 0x09, flags: 1, body: vec![], len_field: Some(0) }])],
+    vec![d1(vec![data(1), Sub::Raw { id: 0x09, flags: 1, body: vec![1, 2, 3], len_field: Some(3) }])],
+    vec![d1(vec![data(1), Sub::Raw { id: 0x0c, flags: 1, body: vec![1; 19], len_field: Some(19) }])],
+    vec![d1(vec![data(1), Sub::Raw { id: 0x0e, flags: 1, body: vec![1; 11], len_field: Some(11) }])],
+    vec![d1(vec![data(1), Sub::Raw { id: 0x01, flags: 1, body: vec![], len_field: Some(0) }])],
+    vec![d1(vec![data(1), Sub::Raw { id: 0x80, flags: 1, body: vec![7; 16], len_field: None }])],
+    vec![d1(vec![data(1), Sub::Raw { id: 0x55, flags: 0, body: vec![7; 16], len_field: None }])],
+    // DATA: inline-QoS offset outside, parameter lengths, key hash / status info of wrong size,
+    // payload shorter than the representation header
+    vec![d1(vec![raw_data(1 | 2 | 4, 0xffff, 1, &[0; 8])])],
+    vec![d1(vec![raw_data(1 | 2 | 4, 15, 1, &[0; 8])])],
+    vec![d1(vec![raw_data(1 | 2 | 4, 20, 1, &[0; 8])])],
+    vec![d1(vec![raw_data(1 | 2 | 4, 16, 1, &param(0x70, 0xffff, &[1, 2, 3, 4]))])],
+    vec![d1(vec![raw_data(1 | 2, 16, 1, &[param(0x70, 4, &[1, 2, 3, 4]), sentinel.clone()].concat())])],
+    vec![d1(vec![raw_data(1 | 2, 16, 1, &[param(0x70, 16, &[5; 16]), param(0x71, 1, &[1]), sentinel.clone()].concat())])],
+    vec![d1(vec![raw_data(1 | 2, 16, 1, &[param(0x70, 16, &[5; 16]), param(0x71, 4, &[0, 0, 0, 3]), sentinel.clone()].concat())])],
+    vec![d1(vec![raw_data(1 | 2 | 4, 16, 1, &[param(0x800f, 3, &[1, 2, 3]), sentinel.clone(), vec![0, 1, 0, 0, 1, 2, 3, 4]].concat())])],
+    vec![d1(vec![raw_data(1 | 2 | 4, 16, 1, &[vec![0x70, 0, 0, 0].repeat(64), sentinel.clone(), vec![0, 1, 0, 0]].concat())])],
+    vec![d1(vec![raw_data(1 | 4, 16, 1, &[])]), d1(vec![raw_data(1 | 4, 16, 2, &[0, 1])]), d1(vec![raw_data(1 | 4, 16, 3, &[0, 1, 0])])],
+    vec![d1(vec![raw_data(1 | 4 | 8, 16, 1, &[0, 1, 0, 0, 1])]), d1(vec![raw_data(1 | 8, 16, 2, &[0, 1, 0, 0, 1])]), d1(vec![raw_data(1, 16, 3, &[0, 1, 0, 0, 1])])],
+    // datagrams that are not RTPS messages
+    vec![d1(vec![Sub::Blob { bytes: vec![] }]), d1(vec![Sub::Blob { bytes: b"RTPS".to_vec() }]), d1(vec![Sub::Blob { bytes: b"RTPX\x02\x04\x01\x12aaaaaaaaaaaa".to_vec() }]), d1(vec![Sub::Blob { bytes: b"RTPS\x02\x04\x01\x12DDSPINGxxxxx".to_vec() }]), d1(vec![Sub::Blob { bytes: b"RTPS\x02\x04\x01\x12\x01DDSPING".to_vec() }])],
+    vec![d1(vec![Sub::Blob { bytes: [b"RTPS\x02\x04\x01\x12".to_vec(), vec![1; 12], vec![0x01, 0, 0, 0].repeat(2000)].concat() }])],
+  ];
+  // sequences in which the same bad datagram repeats many times
+  let rep = |d: Dgram, n: usize| -> Vec<Dgram> { (0..n).map(|_| d.clone()).collect() };
+  v.push(rep(d1(vec![Sub::Gap { start: 5, base: 1 << 40, numbits: 256, words: vec![u32::MAX; 8] }]), 1000));
+  v.push(rep(d1(vec![hb(1, 1 << 40, 1)]), 1000));
+  v.push(rep(d1(vec![Sub::DataFrag { sn: 1, start: 1, in_sub: 65535, fsize: 4, total: 8, payload: cdr_payload(4) }]), 1000));
+  v.push(rep(d1(vec![Sub::DataFrag { sn: 7, start: 2, in_sub: 1, fsize: 8, total: 1500, payload: cdr_payload(4) }]), 1000));
+  v.push(rep(d1(vec![Sub::AckNack { base: i64::MAX, numbits: 256, words: vec![u32::MAX; 8], count: 1 }, Sub::NackFrag { sn: 3, base: 2, numbits: 256, words: vec![u32::MAX; 8], count: 1 }]), 1000));
+  v.push(rep(d1(vec![data(5)]), 1000));
+  v.push((0..200).map(|i| d1(vec![hb(1, 300, i + 1)])).collect());
+  v.push((0..200).map(|i| d1(vec![Sub::Gap { start: 3 + 600 * i, base: 500 + 600 * i, numbits: 0, words: vec![] }])).collect());
+  v.push((0..200).map(|i| Dgram { src: 3, subs: vec![Sub::DataFrag { sn: 1 + i, start: 1, in_sub: 1, fsize: 8, total: 1000, payload: cdr_payload(4) }] }).collect());
+  v
 }
 
 fn coq_words(w: &[u32]) -> String {
   util::list(w.iter().map(|x| format!("{}", x)))
 }
-fn coq_sub(s: &Sub) -> String {
+fn coq_sub(s: &Sub, parsed: bool) -> String {
+  let z = |x: i64| util::z(x as i128);
   match s {
-    Sub::Heartbeat { first, last, count, fin } => format!(
-      "(Heartbeat {} {} {} {})",
-      util::z(*first as i128),
-      util::z(*last as i128),
-      util::z(*count as i128),
-      util::b(*fin)
-    ),
-    Sub::Gap { start, base, numbits, words } => format!(
-      "(Gap {} {} {} {})",
-      util::z(*start as i128),
-      util::z(*base as i128),
-      numbits,
-      coq_words(words)
-    ),
-    Sub::Data { sn, payload } => format!("(Data {} {})", util::z(*sn as i128), payload.len()),
-    Sub::DataFrag { sn, start, in_sub, fsize, total, payload } => format!(
-      "(DataFrag {} {} {} {} {} {})",
-      util::z(*sn as i128),
-      start,
-      in_sub,
-      fsize,
-      total,
-      payload.len()
-    ),
-    Sub::AckNack { base, numbits, words, count } => format!(
-      "(AckNack {} {} {} {})",
-      util::z(*base as i128),
-      numbits,
-      coq_words(words),
-      util::z(*count as i128)
-    ),
-    Sub::NackFrag { sn, base, numbits, words, count } => format!(
-      "(NackFrag {} {} {} {} {})",
-      util::z(*sn as i128),
-      base,
-      numbits,
-      coq_words(words),
-      util::z(*count as i128)
-    ),
-    Sub::HeartbeatFrag { sn, last_frag, count } => {
-      format!("(HeartbeatFrag {} {} {})", util::z(*sn as i128), last_frag, util::z(*count as i128))
+    Sub::Heartbeat { first, last, count, fin } => {
+      format!("(Heartbeat {} {} {} {})", z(*first), z(*last), z(*count as i64), util::b(*fin))
     }
+    Sub::Gap { start, base, numbits, words } => format!("(Gap {} {} {} {})", z(*start), z(*base), numbits, coq_words(words)),
+    Sub::Data { sn, payload } => format!("(Data {} {})", z(*sn), payload.len()),
+    Sub::DataFrag { sn, start, in_sub, fsize, total, payload } => {
+      format!("(DataFrag {} {} {} {} {} {})", z(*sn), start, in_sub, fsize, total, payload.len())
+    }
+    Sub::AckNack { base, numbits, words, count } => {
+      format!("(AckNack {} {} {} {})", z(*base), numbits, coq_words(words), z(*count as i64))
+    }
+    Sub::NackFrag { sn, base, numbits, words, count } => {
+      format!("(NackFrag {} {} {} {} {})", z(*sn), base, numbits, coq_words(words), z(*count as i64))
+    }
+    Sub::HeartbeatFrag { sn, last_frag, count } => format!("(HeartbeatFrag {} {} {})", z(*sn), last_frag, z(*count as i64)),
     Sub::InfoTs { sec, frac } => format!("(InfoTs {} {})", sec, frac),
+    Sub::InfoDst { who } => format!("(InfoDst {})", who),
+    Sub::InfoSrc { who } => format!("(InfoSrc {})", who),
     Sub::Raw { id, flags, body, len_field } => format!(
-      "(Raw {} {} {} {})",
+      "(Raw {} {} {} {} {})",
       id,
       flags,
       body.len(),
-      util::opt(len_field.map(|l| format!("{}", l)))
+      util::opt(len_field.map(|l| format!("{}", l))),
+      util::b(parsed)
     ),
+    Sub::Blob { bytes } => format!("(Blob {} {})", bytes.len(), util::b(parsed)),
+  }
+}
+fn coq_case(c: &[Dgram], parsed: &[bool]) -> String {
+  // run-length encoded: consecutive identical datagrams are printed once with their count
+  let terms: Vec<String> = c
+    .iter()
+    .enumerate()
+    .map(|(i, d)| {
+      format!(
+        "(Build_dgram {} {})",
+        d.src,
+        util::list(d.subs.iter().map(|s| coq_sub(s, parsed.get(i).copied().unwrap_or(false))))
+      )
+    })
+    .collect();
+  let mut rl: Vec<(usize, &String)> = Vec::new();
+  for t in &terms {
+    match rl.last_mut() {
+      Some((n, u)) if *u == t => *n += 1,
+      _ => rl.push((1, t)),
+    }
+  }
+  format!("(Build_case {})", util::list(rl.iter().map(|(n, t)| format!("({}, {})", n, t))))
+}
+
+fn sub_tag(s: &Sub) -> &'static str {
+  match s {
+    Sub::Heartbeat { .. } => "heartbeat",
+    Sub::Gap { .. } => "gap",
+    Sub::Data { .. } => "data",
+    Sub::DataFrag { .. } => "datafrag",
+    Sub::AckNack { .. } => "acknack",
+    Sub::NackFrag { .. } => "nackfrag",
+    Sub::HeartbeatFrag { .. } => "heartbeatfrag",
+    Sub::InfoTs { .. } => "infots",
+    Sub::InfoDst { .. } => "infodst",
+    Sub::InfoSrc { .. } => "infosrc",
+    Sub::Raw { .. } => "raw",
+    Sub::Blob { .. } => "blob",
   }
 }
 
-fn corpus() -> Vec<Vec<Vec<Sub>>> {
-  let hb = |first, last, count| Sub::Heartbeat { first, last, count, fin: false };
-  vec![
-    // F6: heartbeat advertising a huge range (was: loop over the whole range)
-    vec![vec![hb(1, 1 << 40, 1)]],
-    vec![vec![hb(1, i64::MAX, 1)]],
-    vec![vec![hb(i64::MAX, i64::MAX, 1)], vec![Sub::Data { sn: i64::MAX, payload: cdr_payload(4) }]],
-    vec![vec![hb(i64::MAX - 1, i64::MAX, 1)], vec![Sub::Data { sn: i64::MAX - 1, payload: cdr_payload(4) }], vec![Sub::Data { sn: i64::MAX, payload: cdr_payload(4) }]],
-    // number sets whose elements overflow the number type
-    vec![vec![Sub::Gap { start: i64::MAX - 3, base: i64::MAX - 2, numbits: 32, words: vec![u32::MAX] }]],
-    vec![vec![Sub::AckNack { base: i64::MAX - 2, numbits: 32, words: vec![u32::MAX], count: 1 }]],
-    vec![vec![Sub::NackFrag { sn: 1, base: u32::MAX - 2, numbits: 32, words: vec![u32::MAX], count: 1 }]],
-    vec![vec![Sub::NackFrag { sn: 1, base: 0, numbits: 32, words: vec![u32::MAX], count: 1 }]],
-    // F2: inconsistent DATAFRAG fields
-    vec![vec![Sub::DataFrag { sn: 1, start: 1, in_sub: 65535, fsize: 4, total: 8, payload: cdr_payload(4) }]],
-    vec![
-      vec![Sub::DataFrag { sn: 1, start: 1, in_sub: 1, fsize: 60000, total: 120000, payload: cdr_payload(8) }],
-      vec![Sub::DataFrag { sn: 2, start: 10, in_sub: 1, fsize: 1, total: 10, payload: cdr_payload(1) }],
-    ],
-    vec![
-      vec![Sub::DataFrag { sn: 1, start: 1, in_sub: 1, fsize: 8, total: 16, payload: cdr_payload(4) }],
-      vec![Sub::DataFrag { sn: 1, start: 2, in_sub: 1, fsize: 8, total: 64, payload: cdr_payload(4) }],
-    ],
-    vec![vec![Sub::DataFrag { sn: 1, start: 0, in_sub: 1, fsize: 8, total: 16, payload: cdr_payload(4) }]],
-    vec![vec![Sub::DataFrag { sn: 1, start: 1, in_sub: 1, fsize: 0, total: 16, payload: cdr_payload(4) }]],
-    // known findings (kept small enough to run): GAP span, DATAFRAG sample size
-    vec![vec![Sub::Gap { start: 5, base: 5 + 300_000, numbits: 0, words: vec![] }]],
-    vec![vec![Sub::DataFrag { sn: 1, start: 1, in_sub: 1, fsize: 1024, total: 8_000_000, payload: cdr_payload(1020) }]],
-  ]
+fn all_cases(args: &Args) -> Vec<(usize, &'static str, Vec<Dgram>)> {
+  let mut cases = Vec::new();
+  let mut idx = 0;
+  for c in corpus() {
+    cases.push((idx, "corpus", c));
+    idx += 1;
+  }
+  for _ in 0..args.n {
+    let mut r = Rng::for_case(args.seed, idx);
+    let (kind, c) = match r.below(10) {
+      0..=4 => ("hostile", gen_hostile(&mut r)),
+      5 | 6 => ("valid", gen_valid(&mut r)),
+      7 => {
+        // valid traffic with a hostile datagram in the middle
+        let mut v = gen_valid(&mut r);
+        let h = gen_hostile(&mut r);
+        let at = r.below(v.len() as u64 + 1) as usize;
+        for (k, d) in h.into_iter().enumerate() {
+          v.insert(at + k, d);
+        }
+        ("mixed", v)
+      }
+      _ => ("mutated", gen_mutated(&mut r)),
+    };
+    // the known-finding class is represented by structured cases; uninterpreted bytes that
+    // happen to announce a huge sample would only slow the run down (the buffer is zeroed)
+    let mut c = c;
+    for d in c.iter_mut() {
+      if blob_known_datafrag(&datagram(d)) > (1 << 24) {
+        d.subs.retain(|s| !matches!(s, Sub::Raw { .. }));
+        if let [Sub::Blob { bytes }] = d.subs.as_mut_slice() {
+          bytes.truncate(40);
+        }
+      }
+    }
+    cases.push((idx, kind, c));
+    idx += 1;
+  }
+  cases
+}
+
+// ---------- child: executes cases, one result line per case ----------
+fn child_main(args: &Args) -> i32 {
+  std::panic::set_hook(Box::new(|info| {
+    if std::env::var("C06_VERBOSE").is_ok() {
+      eprintln!("{info}");
+    }
+  }));
+  let from: usize = args.get("from").and_then(|s| s.parse().ok()).unwrap_or(0);
+  let stdout = std::io::stdout();
+  for (i, _kind, c) in all_cases(args) {
+    if i < from || args.only.map_or(false, |o| o != i) {
+      continue;
+    }
+    {
+      let mut o = stdout.lock();
+      writeln!(o, "S\t{}", i).unwrap();
+      o.flush().unwrap();
+    }
+    let dgs: Vec<Vec<u8>> = c.iter().map(datagram).collect();
+    let res = run_case(&dgs);
+    let obs = format!(
+      "(Build_obs {} {} {} {} {} {} {} {} {} 0)",
+      util::list(res.outcomes.iter().map(|o| format!("O{}", o))),
+      util::list(dgs.iter().map(|d| format!("{}", d.len()))),
+      util::list(res.replies.iter().map(|(w, b, s)| format!("({}, {}, {})", w, util::z(*b as i128), coq_zs(s)))),
+      util::opt(res.digest.clone()),
+      util::b(res.w2_delivered),
+      util::opt(res.w2_base.map(|b| util::z(b as i128))),
+      res.max_alloc,
+      util::z(res.retained as i128),
+      res.max_ms
+    );
+    let clean = res.outcomes.iter().all(|o| *o == "Ok") && res.w2_delivered && res.w2_base == Some(2);
+    let mut o = stdout.lock();
+    writeln!(
+      o,
+      "R\t{}\t{}\t{}\t{}\t{}\t{}",
+      i,
+      res.parsed.iter().map(|b| if *b { '1' } else { '0' }).collect::<String>(),
+      obs,
+      res.max_alloc,
+      if clean { 1 } else { 0 },
+      res.max_ms
+    )
+    .unwrap();
+    o.flush().unwrap();
+  }
+  0
+}
+
+// ---------- parent ----------
+enum Ev {
+  Line(String),
+  Eof,
 }
 
 pub fn run(args: &Args) -> i32 {
+  if std::env::var("C06_CHILD").is_ok() {
+    return child_main(args);
+  }
   let mut out = CaseOut::new(
     args,
     "From Coq Require Import List ZArith.\nFrom RD Require Import Common.Corr C06.Model.\nImport ListNotations.\nOpen Scope Z_scope.",
@@ -588,85 +1091,128 @@ pub fn run(args: &Args) -> i32 {
     "C06.Model.case",
     "C06.Model.obs",
   );
-  // quiet panic messages of the (expected-to-be-caught) hostile cases
-  std::panic::set_hook(Box::new(|info| {
-    if thread::current().name() == Some("main") || std::env::var("C06_VERBOSE").is_ok() {
-      eprintln!("{info}");
+  out.per_shard = 60;
+  let cases = all_cases(args);
+  let wanted: Vec<usize> = cases.iter().map(|c| c.0).filter(|i| args.only.map_or(true, |o| o == *i)).collect();
+  let exe = std::env::current_exe().unwrap();
+  let vlimit_kb = args.get("vlimit-kb").unwrap_or("3000000").to_string();
+  let mut results: std::collections::BTreeMap<usize, (String, String, u64, bool, u128)> = Default::default();
+  let mut from = 0usize;
+  let mut restarts = 0;
+  let last = wanted.last().copied();
+  while last.map_or(false, |l| from <= l) && restarts < 12 {
+    let mut cmd = Command::new("sh");
+    cmd
+      .arg("-c")
+      .arg(format!("ulimit -v {}; exec \"$0\" \"$@\"", vlimit_kb))
+      .arg(&exe)
+      .arg("c06")
+      .args(["--seed", &args.seed.to_string(), "--n", &args.n.to_string(), "--tier", &args.tier])
+      .args(["--out", args.out.to_str().unwrap(), "--from", &from.to_string()])
+      .env("C06_CHILD", "1")
+      .stdout(Stdio::piped());
+    if let Some(o) = args.only {
+      cmd.args(["--only", &o.to_string()]);
     }
-  }));
-  let mut cases: Vec<(usize, Vec<Vec<Sub>>)> = Vec::new();
-  let mut idx = 0;
-  for c in corpus() {
-    cases.push((idx, c));
-    idx += 1;
-  }
-  for _ in 0..args.n {
-    let mut r = Rng::for_case(args.seed, idx);
-    let ndg = r.range(1, 4) as usize;
-    let mut c = Vec::new();
-    for _ in 0..ndg {
-      let ns = r.range(1, 3) as usize;
-      c.push((0..ns).map(|_| gen_sub(&mut r, true)).collect::<Vec<_>>());
-    }
-    cases.push((idx, c));
-    idx += 1;
-  }
-  if let Some(o) = args.only {
-    cases.retain(|(i, _)| *i == o);
-  }
-  let mut hangs = 0;
-  for (i, c) in &cases {
-    let flat: Vec<Sub> = c.iter().flatten().cloned().collect();
-    let kf = kf_class(&flat);
-    if hangs >= 3 {
-      break; // do not burn the machine: each hang leaves a spinning thread behind
-    }
-    let dgs: Vec<Vec<u8>> = c.iter().map(|subs| datagram(&P_W1, subs)).collect();
-    let total_bytes: usize = dgs.iter().map(|d| d.len()).sum();
-    let res = run_case(dgs, 3);
-    if res.hang {
-      hangs += 1;
-    }
-    let mut tags: Vec<String> = flat
-      .iter()
-      .map(|s| {
-        format!(
-          "sub:{}",
-          match s {
-            Sub::Heartbeat { .. } => "heartbeat",
-            Sub::Gap { .. } => "gap",
-            Sub::Data { .. } => "data",
-            Sub::DataFrag { .. } => "datafrag",
-            Sub::AckNack { .. } => "acknack",
-            Sub::NackFrag { .. } => "nackfrag",
-            Sub::HeartbeatFrag { .. } => "heartbeatfrag",
-            Sub::InfoTs { .. } => "infots",
-            Sub::Raw { .. } => "raw",
+    let mut child = match cmd.spawn() {
+      Ok(c) => c,
+      Err(e) => {
+        eprintln!("cannot spawn the case executor: {e}");
+        return 3;
+      }
+    };
+    let stdout = child.stdout.take().unwrap();
+    let (tx, rx) = mpsc::channel();
+    thread::spawn(move || {
+      for l in BufReader::new(stdout).lines() {
+        match l {
+          Ok(l) => {
+            if tx.send(Ev::Line(l)).is_err() {
+              return;
+            }
           }
-        )
-      })
-      .collect();
-    tags.push(format!("outcome:{}", res.outcomes.last().copied().unwrap_or("none")));
-    tags.push(format!("alloc_bucket:{}", match res.max_alloc { 0..=65535 => "<64K", 65536..=1048575 => "<1M", 1048576..=16777215 => "<16M", _ => ">=16M" }));
-    tags.push(format!("w2_delivered:{}", res.w2_delivered));
-    if !kf.is_empty() {
-      tags.push(format!("known_class:{}", kf));
+          Err(_) => break,
+        }
+      }
+      let _ = tx.send(Ev::Eof);
+    });
+    let mut current: Option<usize> = None;
+    let mut why = "";
+    loop {
+      match rx.recv_timeout(StdDuration::from_secs(20)) {
+        Ok(Ev::Line(l)) => {
+          let p: Vec<&str> = l.split('\t').collect();
+          match p.as_slice() {
+            ["S", i] => current = i.parse().ok(),
+            ["R", i, parsed, obs, alloc, clean, ms] => {
+              results.insert(
+                i.parse().unwrap(),
+                (parsed.to_string(), obs.to_string(), alloc.parse().unwrap_or(0), *clean == "1", ms.parse().unwrap_or(0)),
+              );
+              current = None;
+            }
+            _ => {}
+          }
+        }
+        Ok(Ev::Eof) => {
+          why = "Crash";
+          break;
+        }
+        Err(_) => {
+          why = "Hang";
+          let _ = child.kill();
+          break;
+        }
+      }
     }
-    let case = format!(
-      "(Build_case {} {})",
-      util::list(c.iter().map(|subs| util::list(subs.iter().map(coq_sub)))),
-      total_bytes
-    );
-    let obs = format!(
-      "(Build_obs {} {} {} {} {} {})",
-      util::list(res.outcomes.iter().map(|o| format!("O{}", o))),
-      res.max_alloc,
-      res.max_ms,
-      util::opt(res.w1_base.map(|b| util::z(b as i128))),
-      util::b(res.w2_delivered),
-      util::opt(res.w2_base.map(|b| util::z(b as i128)))
-    );
-    out.push_kf(*i, case, obs, &tags, true, kf);
+    let status = child.wait();
+    match current {
+      Some(i) => {
+        // the executor died or hung while case i was running
+        eprintln!("c06: executor {} in case {} ({:?})", why, i, status);
+        let c = &cases.iter().find(|c| c.0 == i).unwrap().2;
+        let obs = format!(
+          "(Build_obs [O{}] {} [] None false None 0 0 0 0)",
+          why,
+          util::list(c.iter().map(|d| format!("{}", datagram(d).len())))
+        );
+        results.insert(i, ("".to_string(), obs, 0, false, 0));
+        from = i + 1;
+        restarts += 1;
+      }
+      None => break,
+    }
+  }
+  for (i, kind, c) in &cases {
+    let Some((parsed, obs, alloc, clean, ms)) = results.get(i) else { continue };
+    let parsed: Vec<bool> = parsed.chars().map(|ch| ch == '1').collect();
+    let flat: Vec<&Sub> = c.iter().flat_map(|d| d.subs.iter()).collect();
+    let known = flat.iter().any(|s| sub_known(s)) || c.iter().any(|d| blob_known_datafrag(&datagram(d)) > 0);
+    // the known finding is the allocation only: anything else that goes wrong in such a case is
+    // reported as a violation
+    let kf = if known && *clean { "C06-datafrag-size" } else { "" };
+    let mut tags: Vec<String> = vec![format!("kind:{}", kind)];
+    let mut kinds: Vec<&str> = flat.iter().map(|s| sub_tag(s)).collect();
+    kinds.sort();
+    kinds.dedup();
+    tags.extend(kinds.iter().map(|k| format!("sub:{}", k)));
+    tags.push(format!("datagrams:{}", match c.len() { 0 => "0", 1 => "1", 2..=4 => "2-4", 5..=20 => "5-20", _ => ">20" }));
+    tags.push(format!("outcome:{}", if obs.contains("OCrash") { "crash" } else if obs.contains("OHang") { "hang" } else { "ok" }));
+    tags.push(format!("alloc_bucket:{}", match alloc { 0..=65535 => "<64K", 65536..=1048575 => "<1M", 1048576..=16777215 => "<16M", _ => ">=16M" }));
+    tags.push(format!("ms_bucket:{}", match ms { 0..=9 => "<10", 10..=99 => "<100", 100..=999 => "<1000", _ => ">=1000" }));
+    tags.push(format!("parsed:{}of{}", parsed.iter().filter(|b| **b).count().min(3), c.len().min(3)));
+    if known {
+      tags.push("known_class:C06-datafrag-size".to_string());
+    }
+    if flat.iter().any(|s| sub_too_big(s)) {
+      tags.push("too_big_for_model".to_string());
+    }
+    let exact = !flat.iter().any(|s| sub_too_big(s))
+      && c.iter().enumerate().all(|(k, d)| {
+        !(parsed.get(k).copied().unwrap_or(false) && d.subs.iter().any(|s| matches!(s, Sub::Raw { .. } | Sub::Blob { .. })))
+      });
+    tags.push(format!("exact:{}", exact));
+    out.push_kf(*i, coq_case(c, &parsed), obs.clone(), &tags, !c.is_empty(), kf);
   }
   out.finish()
 }
